@@ -21,23 +21,42 @@ pub struct PipeState {
     pub writes: usize,
 }
 
+pub type Responder = Box<dyn FnMut(&[u8]) -> Vec<u8>>;
+
+/// In-memory duplex transport. With a responder installed it is *reactive*: when the
+/// client reads and nothing is pending, the bytes the client wrote since the last call
+/// are handed to the responder (the reference server), whose answer becomes readable.
 #[derive(Clone)]
-pub struct Pipe(pub Rc<RefCell<PipeState>>);
+pub struct Pipe(pub Rc<RefCell<PipeState>>, pub Rc<RefCell<Option<Responder>>>, pub Rc<RefCell<usize>>);
 
 // The rdp Message trait requires Send for boxed messages, not for the stream.
 impl Pipe {
     pub fn new(inbox: Vec<u8>, rsched: Vec<usize>) -> Self {
-        Pipe(Rc::new(RefCell::new(PipeState { inbox, rsched, ..Default::default() })))
+        Pipe(Rc::new(RefCell::new(PipeState { inbox, rsched, ..Default::default() })), Rc::new(RefCell::new(None)), Rc::new(RefCell::new(0)))
     }
     pub fn with_wsched(self, w: Vec<Option<usize>>) -> Self { self.0.borrow_mut().wsched = w; self }
+    pub fn set_responder(&self, r: Responder) { *self.1.borrow_mut() = Some(r); }
+    pub fn clear_responder(&self) { *self.1.borrow_mut() = None; }
     pub fn left(&self) -> Vec<u8> { let s = self.0.borrow(); s.inbox[s.pos..].to_vec() }
     pub fn written(&self) -> Vec<u8> { self.0.borrow().outbox.clone() }
     pub fn push_in(&self, b: &[u8]) { self.0.borrow_mut().inbox.extend_from_slice(b) }
-    pub fn take_written(&self) -> Vec<u8> { std::mem::replace(&mut self.0.borrow_mut().outbox, vec![]) }
+    pub fn take_written(&self) -> Vec<u8> { *self.2.borrow_mut() = 0; std::mem::replace(&mut self.0.borrow_mut().outbox, vec![]) }
 }
 
 impl Read for Pipe {
     fn read(&mut self, buf: &mut [u8]) -> io::Result<usize> {
+        {
+            let pending = { let s = self.0.borrow(); s.inbox.len() - s.pos };
+            if pending == 0 {
+                let mut rb = self.1.borrow_mut();
+                if let Some(r) = rb.as_mut() {
+                    let new = { let s = self.0.borrow(); let seen = *self.2.borrow(); s.outbox[seen..].to_vec() };
+                    *self.2.borrow_mut() += new.len();
+                    let ans = r(&new);
+                    self.0.borrow_mut().inbox.extend_from_slice(&ans);
+                }
+            }
+        }
         let mut s = self.0.borrow_mut();
         s.reads += 1;
         let mut cap = buf.len();
